@@ -1,15 +1,19 @@
-(* Kernel/ShiftCompose.v -- C02, IMMEDIATE NON-FAST mode, the public deletion of a face:
+(* Kernel/ShiftCompose.v -- C02 / C01, IMMEDIATE NON-FAST mode, the public deletions:
      - delete_cell_core h: only the cell array (slot h removed), the cell flag array, the halfface->cell cache (entries of the dying
        cell cleared, larger cell handles decremented) and - by re-ordering only - the halfedge->halfface lists change; the
-       exactness of the halfface->cell cache is preserved;
-     - a descending run of delete_cell_core over a strictly ascending list of cells removes exactly those slots (keep_slots);
-     - delete_face f: the surviving vertices / edges are untouched, the surviving faces are the old ones without slot f, the
-       surviving cells are exactly the cells outside the closure (cells_at_faces s [f]), in their old order, each with its
-       old definition read through the shift map cor2 (2f+1) -- the same with the cache on (under fbu_ok) or off. *)
+       exactness of the halfface->cell cache is preserved (fbu_inv), and so is the FULL invariant shift_inv2 (the re-ordered
+       lists are those of the deferred-mode run on the same state, Kernel2/ExactDelCell.v, transported through set_def);
+     - a descending run of a core over a strictly ascending list removes exactly those slots (remove_slots = keep_slots);
+     - the phases of a public deletion (cells, faces, edges), each keeping shift_inv2 and establishing the "free" hypothesis
+       of the next one;
+     - delete_face f / delete_edge e / delete_vertex v: exactly the brute-force upward closure (Kernel/Closure.v) goes away, every
+       survivor keeps its definition read through the handle shifts, shift_inv2 holds again -- with any subset of incidences on;
+     - executable forms of all hypotheses (for the non-vacuity examples in Props/Properties_C02.v). *)
 From Coq Require Import ZArith Lia Bool Arith List ZifyNat ZifyBool Permutation.
 From OVM Require Import Base.ListX Base.ListLemmas Base.ListLemmas2 Kernel.State Kernel.Ops Kernel.Mirror Kernel.Construct
                         Kernel.Recompute Kernel.Closure Kernel.ExactInv Kernel.ExactDelete Kernel.DeleteEffects Kernel.DeleteDefs
-                        Kernel2.ListAux Kernel2.ReorderExact Kernel2.ExactBase Kernel2.ExactDelCell Kernel.ShiftFace.
+                        Kernel2.LookupModel Kernel2.ListAux Kernel2.AdjacentProofs Kernel2.ReorderExact Kernel2.ExactBase Kernel2.ExactDelCell
+                        Kernel.ShiftFace Kernel.ShiftEdge Kernel.ShiftVertex.
 Import ListNotations.
 Ltac Zify.zify_post_hook ::= Z.div_mod_to_equations.
 Local Open Scope nat_scope.
@@ -78,6 +82,120 @@ Proof.
       assert (E : None = Some (unshift1 h c)) by (apply T; tauto). discriminate.
   - intros c hf Hc Hhf. rewrite NC in Hc. rewrite CAt in Hhf. rewrite NF_. apply (CR (unshift1 h c)); [apply unshift1_lt; assumption|exact Hhf].
   - intros Fb. rewrite m3 in Fb. rewrite w10, Fb, NF_. unfold cell_inc. rewrite map_length, length_clear_fold. exact (L Fb).
+Qed.
+
+(* ================================================================== the cell core keeps the full invariant *)
+
+(* the part of delete_cell_core that both modes share: clear the cache entries of the dying cell, re-order around its edges *)
+Definition cell_loop (h : nat) (s : mesh) : mesh :=
+  if fbu s then
+    let s' := cleared s h in
+    let es := set_of_list (map (fun he => he / 2) (concat (map (halfface s') (cell_at s h)))) in
+    if ebu s' then reorder_edges es s' else s'
+  else s.
+
+Lemma cell_loop_frame h s : exists x y, cell_loop h s = set_inc_hfs x (set_inc_cell y s).
+Proof.
+  unfold cell_loop. destruct (fbu s).
+  - cbv zeta. change (ebu (cleared s h)) with (ebu s). destruct (ebu s).
+    + match goal with |- context [reorder_edges ?es ?u] => destruct (reorder_edges_frame2 es u) as [x [-> _]] end.
+      exists x, (inc_cell (cleared s h)). reflexivity.
+    + exists (inc_hfs s), (inc_cell (cleared s h)). reflexivity.
+  - exists (inc_hfs s), (inc_cell s). destruct s; reflexivity.
+Qed.
+
+Lemma delete_cell_core_inc_hfs h s : fast s && negb (deferred s) = false -> inc_hfs (delete_cell_core h s) = inc_hfs (cell_loop h s).
+Proof.
+  intros NS. unfold delete_cell_core. rewrite NS.
+  match goal with |- context [if deferred ?x then _ else _] => set (s1 := x) end.
+  assert (E1 : s1 = cell_loop h s) by reflexivity. clearbody s1. subst s1.
+  destruct (cell_loop_frame h s) as [x [y ->]]. rsh. destruct (deferred s); rsh; [reflexivity|].
+  destruct (negb (fast s) && fbu s); rsh; reflexivity.
+Qed.
+
+Lemma reorder_edges_reads es : forall s t, same_reads s t -> same_reads (reorder_edges es s) (reorder_edges es t).
+Proof. unfold reorder_edges. induction es as [|e es IH]; intros s t H; [exact H|]. cbn [fold_left]. apply IH. apply reorder_reads. exact H. Qed.
+
+Lemma same_reads_cleared h s t : same_reads s t -> same_reads (cleared s h) (cleared t h).
+Proof. intros (a & b & c & d & e & f). unfold same_reads, cleared, cell_at. rsh. rewrite b, d. repeat split; assumption. Qed.
+
+Lemma cell_loop_reads h s t : same_reads s t -> ebu s = ebu t -> inc_hfs (cell_loop h s) = inc_hfs (cell_loop h t).
+Proof.
+  intros H Eb. pose proof H as (a & b & c & d & e & f). unfold cell_loop. rewrite f. destruct (fbu t); [|exact e].
+  cbv zeta. change (ebu (cleared s h)) with (ebu s). change (ebu (cleared t h)) with (ebu t). rewrite Eb. destruct (ebu t); [|exact e].
+  assert (Es : map (halfface (cleared s h)) (cell_at s h) = map (halfface (cleared t h)) (cell_at t h)).
+  { unfold cell_at. rewrite b. apply map_ext. intros x. unfold halfface, face_at, cleared. rsh. rewrite a. reflexivity. }
+  rewrite Es. apply (reorder_edges_reads _ _ _ (same_reads_cleared h s t H)).
+Qed.
+
+Lemma closed_cell_same s s' c c' : cell_at s' c' = cell_at s c -> faces s' = faces s ->
+  (forall y, In y (cell_at s c) -> cell_of s' y = Some c') -> closed_cell s c -> closed_cell s' c'.
+Proof.
+  intros CA Fa CO Cl. apply (closed_cell_rename s s' c c' (fun x => x) (fun x => x)); [rewrite map_id; exact CA|exact CO| | | |exact Cl].
+  - intros; split; reflexivity.
+  - intros z Hz. rewrite map_id. unfold halfface, face_at. rewrite Fa. reflexivity.
+  - intros; reflexivity.
+Qed.
+
+Theorem shift_inv2_delete_cell_core h s : deferred s = false -> fast s = false -> shift_inv2 s -> h < nc s ->
+  shift_inv2 (delete_cell_core h s).
+Proof.
+  intros D F [I X] Hh.
+  pose proof I as ((NFv & NFe & NFf & NFc) & VO & EO & FO & (R1 & R2 & R3) & (L1 & L2 & L3 & L4 & L5 & L6)).
+  pose proof (fbu_inv_delete_cell_core h s D F (shift_inv_fbu_inv s I) Hh) as (NF' & FO' & CR' & Li').
+  pose proof (delete_cell_core_inc_hfs h s ltac:(rewrite F; reflexivity)) as IH.
+  pose proof (delete_cell_core_view h s D F) as V. cbv zeta in V. set (s' := delete_cell_core h s) in *.
+  destruct V as (w1 & w2 & w3 & w4 & w5 & w6 & w7 & w8 & w9 & w10 & w11 & w12 & (m1 & m2 & m3 & m4 & m5)).
+  assert (NE : ne s' = ne s) by (unfold ne; rewrite w2; reflexivity).
+  assert (NF_ : nf s' = nf s) by (unfold nf; rewrite w3; reflexivity).
+  assert (NC : nc s' = nc s - 1) by (unfold nc; rewrite w4; apply remove_nth_length; exact Hh).
+  assert (CAt : forall c, cell_at s' c = cell_at s (unshift1 h c)) by (intros c; unfold cell_at; rewrite w4; apply nth_remove_nth_unshift).
+  pose proof NF' as (NFv' & NFe' & NFf' & NFc').
+  (* the deferred run on the same state: Kernel2/ExactDelCell.v *)
+  assert (Def : ebu s = true -> fbu s = true ->
+                slots_nodup s' /\ (forall k, k < 2 * ne s -> forall x, In x (hfs_at s' k) <-> In x (hfs_at s k))).
+  { intros E Fb. destruct (X E Fb) as (SN & LC & FS). set (sd := set_def s).
+    assert (CL : cells_ref_live s) by (intros c hf Hc _ Hhf; split; [pose proof (R3 c Hc (NFc c) hf Hhf); lia|apply NFf]).
+    assert (B : bu_inv2 sd).
+    { split; [exact (conj VO (conj EO (conj FO (conj (conj R1 (conj R2 R3)) (conj L1 (conj L2 (conj L3 (conj L4 (conj L5 L6)))))))))|].
+      split; [exact E|]. split; [exact Fb|]. split; [reflexivity|]. split; [exact SN|]. split; [exact CL|]. split; [exact LC|exact FS]. }
+    pose proof (bu_inv2_delete_cell_core h sd B Hh (NFc h)) as ((_ & EOd & _) & Ed & _ & _ & SNd & _).
+    pose proof (ExactDelCell.delete_cell_core_view h sd eq_refl Fb E) as Vd. cbv zeta in Vd.
+    destruct Vd as (_ & d2 & d3 & _ & _ & d6 & _).
+    pose proof (delete_cell_core_inc_hfs h sd ltac:(apply andb_false_r)) as IHd.
+    assert (Same : inc_hfs s' = inc_hfs (delete_cell_core h sd)).
+    { rewrite IH, IHd. apply cell_loop_reads; [apply same_reads_set_def|reflexivity]. }
+    set (Dd := delete_cell_core h sd) in *.
+    assert (NEd : ne Dd = ne s) by (unfold ne; rewrite d2; reflexivity).
+    split.
+    - intros k Hk. rewrite NE in Hk. unfold hfs_at. rewrite Same. apply SNd. rewrite NEd. exact Hk.
+    - intros k Hk x. unfold hfs_at at 1. rewrite Same. fold (hfs_at Dd k). rewrite (EOd Ed k ltac:(rewrite NEd; exact Hk) x), (EO E k Hk x).
+      unfold nf, f_deleted, halfface, face_at. rewrite d3, d6. reflexivity. }
+  assert (EO' : ebu_ok s').
+  { intros E' k Hk x. rewrite m2 in E'. rewrite NE in Hk.
+    assert (Old : In x (hfs_at s' k) <-> In x (hfs_at s k)).
+    { destruct (fbu s) eqn:Fb; [exact (proj2 (Def E' eq_refl) k Hk x)|].
+      unfold hfs_at. rewrite w12 by (rewrite E'; reflexivity). reflexivity. }
+    rewrite Old, (EO E' k Hk x), NF_, NFf, NFf'. unfold halfface, face_at. rewrite w3. reflexivity. }
+  split; [split; [exact NF'|]; split; [|split; [exact EO'|split; [exact FO'|split; [split; [|split]|unfold lens_ok; split; [|split; [|split; [|split; [|split]]]]]]]]|].
+  - intros V v Hv x. rewrite m1 in V. rewrite w1 in Hv. unfold out_at, e_deleted, he_from, edge_at. rewrite w9, NE, w6, w2. exact (VO V v Hv x).
+  - intros e He _. rewrite NE in He. unfold edge_at. rewrite w2, w1. exact (R1 e He (NFe e)).
+  - intros f Hf _ x Hx. rewrite NF_ in Hf. unfold face_at in Hx. rewrite w3 in Hx. rewrite NE. exact (R2 f Hf (NFf f) x Hx).
+  - intros c Hc _ x Hx. exact (CR' c x Hc Hx).
+  - intros V. rewrite m1 in V. rewrite w9, w1. exact (L1 V).
+  - intros E. rewrite m2 in E. rewrite w11, NE. exact (L2 E).
+  - intros Fb. exact (Li' Fb).
+  - rewrite w6, NE. exact L4.
+  - rewrite w7, NF_. exact L5.
+  - rewrite w8, NC, remove_nth_length by (rewrite L6; exact Hh). rewrite L6. reflexivity.
+  - intros E' Fb'. assert (E : ebu s = true) by congruence. assert (Fb : fbu s = true) by congruence.
+    destruct (X E Fb) as (SN & LC & FS). split; [exact (proj1 (Def E Fb))|]. split.
+    + intros c Hc _. rewrite NC in Hc. assert (Hu : unshift1 h c < nc s) by (apply unshift1_lt; assumption).
+      apply (closed_cell_same s s' (unshift1 h c) c (CAt c) w3); [|exact (LC _ Hu (NFc _))].
+      intros y Hy. apply (FO' Fb').
+      * rewrite NF_. exact (R3 _ Hu (NFc _) y Hy).
+      * split; [rewrite NC; exact Hc|]. split; [apply NFc'|rewrite CAt; exact Hy].
+    + intros f Hf _. rewrite NF_ in Hf. unfold face_at. rewrite w3. exact (FS f Hf (NFf f)).
 Qed.
 
 (* ================================================================== descending runs *)
@@ -282,4 +400,330 @@ Proof.
   unfold faces_simple_b. rewrite forallb_forall. intros H f Hf _. specialize (H _ (nth_In (faces s) [] Hf)). fold (face_at s f) in H.
   unfold simple_hes_b in H. apply andb_true_iff in H. destruct H as [A B]. rewrite forallb_forall in B.
   split; [apply InvB.nodup_b_spec; exact A|]. intros x Hx Hin. specialize (B x Hx). apply Base.ListLemmas.memb_In in Hin. rewrite Hin in B. discriminate.
+Qed.
+
+(* ================================================================== one-stop statements for the three shifting cores *)
+
+Lemma shift_inv_HCf s : shift_inv s -> fbu s = true -> fbu_ok s /\ cells_in_range s /\ length (inc_cell s) = 2 * nf s.
+Proof.
+  intros ((_ & _ & _ & NFc) & _ & _ & FO & (_ & _ & R3) & (_ & _ & L3 & _)) E. split; [exact FO|]. split; [|exact (L3 E)].
+  intros c hf Hc Hhf. exact (R3 c Hc (NFc c) hf Hhf).
+Qed.
+Lemma shift_inv_HCe s : shift_inv s -> ebu s = true -> ebu_ok s /\ faces_in_range s /\ length (inc_hfs s) = 2 * ne s.
+Proof.
+  intros ((_ & _ & NFf & _) & _ & EO & _ & (_ & R2 & _) & (_ & L2 & _)) E. split; [exact EO|]. split; [|exact (L2 E)].
+  intros f he Hf Hhe. exact (R2 f Hf (NFf f) he Hhe).
+Qed.
+Lemma shift_inv_HCv s h : shift_inv s -> vertex_free s h -> vbu s = true -> vbu_ok s /\ edges_in_range s /\ vertex_free s h.
+Proof.
+  intros ((_ & NFe & _ & _) & VO & _ & _ & (R1 & _ & _) & _) VF _. split; [exact VO|]. split; [|exact VF].
+  intros e He. exact (R1 e He (NFe e)).
+Qed.
+
+Theorem face_step h s : deferred s = false -> fast s = false -> shift_inv2 s -> h < nf s -> face_free s h ->
+  let s' := delete_face_core h s in
+  shift_inv2 s' /\ deferred s' = false /\ fast s' = false /\ nv s' = nv s /\ edges s' = edges s /\
+  faces s' = remove_nth h (faces s) /\ cells s' = map (map (cor2 (2 * h + 1))) (cells s) /\
+  (vbu s' = vbu s /\ ebu s' = ebu s /\ fbu s' = fbu s).
+Proof.
+  intros D F I Hh FF. cbv zeta. pose proof (delete_face_core_view h s D F) as V. cbv zeta in V.
+  destruct V as (w1 & w2 & w3 & _ & _ & _ & _ & _ & _ & _ & _ & (m1 & m2 & m3 & m4 & m5)).
+  split; [apply shift_inv2_delete_face_core; assumption|]. repeat split; try assumption.
+  apply delete_face_core_cells_shift; try assumption; [apply I|apply shift_inv_HCf; apply I].
+Qed.
+
+Theorem edge_step h s : deferred s = false -> fast s = false -> shift_inv2 s -> h < ne s -> edge_free s h ->
+  let s' := delete_edge_core h s in
+  shift_inv2 s' /\ deferred s' = false /\ fast s' = false /\ nv s' = nv s /\ edges s' = remove_nth h (edges s) /\
+  faces s' = map (map (cor2 (2 * h + 1))) (faces s) /\ cells s' = cells s /\
+  (vbu s' = vbu s /\ ebu s' = ebu s /\ fbu s' = fbu s).
+Proof.
+  intros D F I Hh FF. cbv zeta. pose proof (delete_edge_core_view h s D F) as V. cbv zeta in V.
+  destruct V as (w1 & w2 & _ & w4 & _ & _ & _ & _ & _ & _ & _ & (m1 & m2 & m3 & m4 & m5)).
+  split; [apply shift_inv2_delete_edge_core; assumption|]. repeat split; try assumption.
+  apply delete_edge_core_faces_shift; try assumption; [apply I|apply shift_inv_HCe; apply I].
+Qed.
+
+Theorem vertex_step h s : deferred s = false -> fast s = false -> shift_inv2 s -> h < nv s -> vertex_free s h ->
+  let s' := delete_vertex_core h s in
+  shift_inv2 s' /\ deferred s' = false /\ fast s' = false /\ nv s' = nv s - 1 /\ edges s' = map (cor1p h) (edges s) /\
+  faces s' = faces s /\ cells s' = cells s /\
+  (vbu s' = vbu s /\ ebu s' = ebu s /\ fbu s' = fbu s).
+Proof.
+  intros D F I Hh VF. cbv zeta. pose proof (delete_vertex_core_view h s D F) as V. cbv zeta in V.
+  destruct V as (w1 & _ & w3 & w4 & _ & _ & _ & _ & _ & _ & _ & (m1 & m2 & m3 & m4 & m5)).
+  split; [apply shift_inv2_delete_vertex_core; assumption|]. repeat split; try assumption.
+  apply delete_vertex_core_edges; try assumption; [apply I|apply shift_inv_HCv; [apply I|exact VF]].
+Qed.
+
+(* ================================================================== the phases of a public deletion *)
+
+(* the composed renaming after the faces (edges) fs are gone, largest first *)
+Definition shift_many (fs : list nat) (x : nat) : nat := fold_right (fun f y => cor2 (2 * f + 1) y) x fs.
+
+Lemma cells_at_faces_spec' s fs c : no_flags s ->
+  (In c (cells_at_faces s fs) <-> c < nc s /\ exists hf, In hf (cell_at s c) /\ In (hf / 2) fs).
+Proof.
+  intros (_ & _ & _ & NFc). unfold cells_at_faces. rewrite filter_In, In_live_cells, existsb_exists. split.
+  - intros [[Hc _] [hf [H1 H2]]]. split; [exact Hc|]. exists hf. split; [exact H1|]. apply Base.ListLemmas.memb_In. exact H2.
+  - intros [Hc [hf [H1 H2]]]. split; [split; [exact Hc|apply NFc]|]. exists hf. split; [exact H1|]. apply Base.ListLemmas.memb_In. exact H2.
+Qed.
+Lemma faces_at_edges_spec s es f : no_flags s ->
+  (In f (faces_at_edges s es) <-> f < nf s /\ exists he, In he (face_at s f) /\ In (he / 2) es).
+Proof.
+  intros (_ & _ & NFf & _). unfold faces_at_edges. rewrite filter_In, In_live_faces, existsb_exists. split.
+  - intros [[Hc _] [hf [H1 H2]]]. split; [exact Hc|]. exists hf. split; [exact H1|]. apply Base.ListLemmas.memb_In. exact H2.
+  - intros [Hc [hf [H1 H2]]]. split; [split; [exact Hc|apply NFf]|]. exists hf. split; [exact H1|]. apply Base.ListLemmas.memb_In. exact H2.
+Qed.
+Lemma edges_at_vertex_spec s v e : no_flags s ->
+  (In e (edges_at_vertex s v) <-> e < ne s /\ (fst (edge_at s e) = v \/ snd (edge_at s e) = v)).
+Proof.
+  intros (_ & NFe & _ & _). unfold edges_at_vertex. rewrite filter_In, In_live_edges. destruct (edge_at s e) as [x y]. cbn [fst snd].
+  rewrite orb_true_iff, !Nat.eqb_eq. split; [tauto|]. intros [A B]. split; [split; [exact A|apply NFe]|exact B].
+Qed.
+
+Lemma del_desc_cells_inv2 cs : forall s, strictly_sorted cs -> (forall c, In c cs -> c < nc s) ->
+  deferred s = false -> fast s = false -> shift_inv2 s -> shift_inv2 (del_desc delete_cell_core cs s).
+Proof.
+  induction cs as [|a cs IH]; intros s Ss R D F I; [exact I|]. rewrite del_desc_cons.
+  pose proof (del_desc_cells_immediate cs s (sorted_tail _ _ Ss) (fun c Hc => R c (or_intror Hc)) D F (shift_inv_fbu_inv s (proj1 I))) as P.
+  cbv zeta in P. destruct P as (_ & Dt & Ft & _ & _ & _ & _ & t5 & _).
+  apply shift_inv2_delete_cell_core; [exact Dt|exact Ft|apply IH; try assumption; [exact (sorted_tail _ _ Ss)|intros c Hc; apply R; right; exact Hc]|].
+  rewrite t5. pose proof (sorted_room a cs (nc s) Ss R). lia.
+Qed.
+
+Theorem cells_phase fs s : deferred s = false -> fast s = false -> shift_inv2 s ->
+  let cs := cells_at_faces s fs in let t := del_desc delete_cell_core cs s in
+  shift_inv2 t /\ deferred t = false /\ fast t = false /\ nv t = nv s /\ edges t = edges s /\ faces t = faces s /\
+  cells t = keep_slots [] cs (cells s) /\ nc t = nc s - length cs /\ (vbu t = vbu s /\ ebu t = ebu s /\ fbu t = fbu s) /\
+  (forall f, In f fs -> face_free t f).
+Proof.
+  intros D F I. cbv zeta. set (cs := cells_at_faces s fs).
+  assert (Scs : strictly_sorted cs) by (apply strictly_sorted_filter, sorted_live_cells).
+  assert (Rcs : forall c, In c cs -> c < nc s) by (intros c Hc; apply (cells_at_faces_live s fs c) in Hc; tauto).
+  pose proof (del_desc_cells_immediate cs s Scs Rcs D F (shift_inv_fbu_inv s (proj1 I))) as P. cbv zeta in P.
+  set (t := del_desc delete_cell_core cs s) in *.
+  destruct P as (_ & Dt & Ft & t1 & t2 & t3 & t4 & t5 & M).
+  assert (K : cells t = keep_slots [] cs (cells s)) by (rewrite t4; apply remove_slots_keep; assumption).
+  split; [apply del_desc_cells_inv2; assumption|]. repeat split; try assumption; try apply M.
+  intros f Hf c hf Hhf E. destruct (Nat.lt_ge_cases c (nc t)) as [Hc|Hc]; [|unfold cell_at in Hhf; rewrite nth_overflow in Hhf by exact Hc; destruct Hhf].
+  assert (J : In (cell_at t c) (keep_slots [] cs (cells s))) by (rewrite <- K; apply nth_In; exact Hc).
+  apply In_keep_slots in J. destruct J as [i (Hi & Hn & Ei)]. apply Hn. apply (cells_at_faces_spec' s fs i (proj1 (proj1 I))). split; [exact Hi|].
+  exists hf. split; [unfold cell_at at 1; rewrite Ei; exact Hhf|rewrite E; exact Hf].
+Qed.
+
+Lemma face_free_after_higher a s g : g < a -> face_free s g ->
+  (forall c, cell_at (delete_face_core a s) c = map (cor2 (2 * a + 1)) (cell_at s c)) -> face_free (delete_face_core a s) g.
+Proof.
+  intros Hg FF CA c hf Hhf. rewrite CA in Hhf. apply in_map_iff in Hhf. destruct Hhf as [y [<- Hy]]. pose proof (FF c y Hy).
+  unfold cor2. ltb_cases; lia.
+Qed.
+
+Theorem faces_phase fs : forall t, strictly_sorted fs -> (forall f, In f fs -> f < nf t) ->
+  deferred t = false -> fast t = false -> shift_inv2 t -> (forall f, In f fs -> face_free t f) ->
+  let u := del_desc delete_face_core fs t in
+  shift_inv2 u /\ deferred u = false /\ fast u = false /\ nv u = nv t /\ edges u = edges t /\
+  faces u = remove_slots fs (faces t) /\ cells u = map (map (shift_many fs)) (cells t) /\ nf u = nf t - length fs /\
+  (vbu u = vbu t /\ ebu u = ebu t /\ fbu u = fbu t) /\
+  (forall g, (forall f, In f fs -> g < f) -> face_free t g -> face_free u g).
+Proof.
+  induction fs as [|a fs IH]; intros t Ss R D F I FF; cbv zeta.
+  - unfold del_desc, remove_slots, shift_many. cbn [rev fold_left fold_right length]. split; [exact I|]. repeat split; auto; try lia.
+    rewrite <- (map_id (cells t)) at 1. apply map_ext. intros l. symmetry. apply map_id.
+  - rewrite del_desc_cons, remove_slots_cons.
+    specialize (IH t (sorted_tail _ _ Ss) (fun f Hf => R f (or_intror Hf)) D F I (fun f Hf => FF f (or_intror Hf))). cbv zeta in IH.
+    set (u := del_desc delete_face_core fs t) in *.
+    destruct IH as (Iu & Du & Fu & u1 & u2 & u3 & u4 & u5 & (u6 & u7 & u8) & Prop_).
+    assert (Lt : forall x, In x fs -> a < x) by (apply strictly_sorted_lt; exact Ss).
+    assert (Ha : a < nf u) by (rewrite u5; pose proof (sorted_room a fs (nf t) Ss R); lia).
+    assert (FFa : face_free u a) by (apply Prop_; [exact Lt|apply FF; left; reflexivity]).
+    pose proof (face_step a u Du Fu Iu Ha FFa) as St. cbv zeta in St.
+    destruct St as (Iv & Dv & Fv & v1 & v2 & v3 & v4 & (v6 & v7 & v8)).
+    split; [exact Iv|]. repeat split; try congruence.
+    + rewrite v4, u4, map_map. apply map_ext. intros l. rewrite map_map. reflexivity.
+    + unfold nf at 1. rewrite v3, remove_nth_length by exact Ha. fold (nf u). rewrite u5. cbn [length]. lia.
+    + intros g Hg FFg. apply face_free_after_higher; [apply Hg; left; reflexivity|apply Prop_; [intros f Hf; apply Hg; right; exact Hf|exact FFg]|].
+      intros c. unfold cell_at. rewrite v4. apply nth_map_map.
+Qed.
+
+Lemma edge_free_after_higher a s g : g < a -> edge_free s g ->
+  (forall f, face_at (delete_edge_core a s) f = map (cor2 (2 * a + 1)) (face_at s f)) -> edge_free (delete_edge_core a s) g.
+Proof.
+  intros Hg FF CA c hf Hhf. rewrite CA in Hhf. apply in_map_iff in Hhf. destruct Hhf as [y [<- Hy]]. pose proof (FF c y Hy).
+  unfold cor2. ltb_cases; lia.
+Qed.
+
+Theorem edges_phase es : forall t, strictly_sorted es -> (forall e, In e es -> e < ne t) ->
+  deferred t = false -> fast t = false -> shift_inv2 t -> (forall e, In e es -> edge_free t e) ->
+  let u := del_desc delete_edge_core es t in
+  shift_inv2 u /\ deferred u = false /\ fast u = false /\ nv u = nv t /\
+  edges u = remove_slots es (edges t) /\ faces u = map (map (shift_many es)) (faces t) /\ cells u = cells t /\ ne u = ne t - length es /\
+  (vbu u = vbu t /\ ebu u = ebu t /\ fbu u = fbu t) /\
+  (forall g, (forall e, In e es -> g < e) -> edge_free t g -> edge_free u g).
+Proof.
+  induction es as [|a es IH]; intros t Ss R D F I FF; cbv zeta.
+  - unfold del_desc, remove_slots, shift_many. cbn [rev fold_left fold_right length]. split; [exact I|]. repeat split; auto; try lia.
+    rewrite <- (map_id (faces t)) at 1. apply map_ext. intros l. symmetry. apply map_id.
+  - rewrite del_desc_cons, remove_slots_cons.
+    specialize (IH t (sorted_tail _ _ Ss) (fun f Hf => R f (or_intror Hf)) D F I (fun f Hf => FF f (or_intror Hf))). cbv zeta in IH.
+    set (u := del_desc delete_edge_core es t) in *.
+    destruct IH as (Iu & Du & Fu & u1 & u2 & u3 & u4 & u5 & (u6 & u7 & u8) & Prop_).
+    assert (Lt : forall x, In x es -> a < x) by (apply strictly_sorted_lt; exact Ss).
+    assert (Ha : a < ne u) by (rewrite u5; pose proof (sorted_room a es (ne t) Ss R); lia).
+    assert (FFa : edge_free u a) by (apply Prop_; [exact Lt|apply FF; left; reflexivity]).
+    pose proof (edge_step a u Du Fu Iu Ha FFa) as St. cbv zeta in St.
+    destruct St as (Iv & Dv & Fv & v1 & v2 & v3 & v4 & (v6 & v7 & v8)).
+    split; [exact Iv|]. repeat split; try congruence.
+    + rewrite v3, u3, map_map. apply map_ext. intros l. rewrite map_map. reflexivity.
+    + unfold ne at 1. rewrite v2, remove_nth_length by exact Ha. fold (ne u). rewrite u5. cbn [length]. lia.
+    + intros g Hg FFg. apply edge_free_after_higher; [apply Hg; left; reflexivity|apply Prop_; [intros f Hf; apply Hg; right; exact Hf|exact FFg]|].
+      intros c. unfold face_at. rewrite v3. apply nth_map_map.
+Qed.
+
+(* ================================================================== the public deletions, immediate non-fast mode *)
+
+Lemma In_faces_at_edges_lt s es f : In f (faces_at_edges s es) -> f < nf s.
+Proof. intros H. apply faces_at_edges_live in H. tauto. Qed.
+Lemma In_edges_at_vertex_lt s v e : In e (edges_at_vertex s v) -> e < ne s.
+Proof. intros H. apply edges_at_vertex_live in H. tauto. Qed.
+
+Theorem delete_face_immediate_full f s : deferred s = false -> fast s = false -> shift_inv2 s -> f < nf s ->
+  let cs := cells_at_faces s [f] in
+  let s' := delete_face f s in
+  shift_inv2 s' /\ deferred s' = false /\ fast s' = false /\
+  nv s' = nv s /\ edges s' = edges s /\ faces s' = remove_nth f (faces s) /\
+  cells s' = map (map (cor2 (2 * f + 1))) (keep_slots [] cs (cells s)).
+Proof.
+  intros D F I Hf. cbv zeta. unfold delete_face. pose proof I as ((_ & _ & _ & FO & _) & _).
+  rewrite (incident_cells_cache_is_scan s [f] FO) by (intros x [<-|[]]; exact Hf).
+  pose proof (cells_phase [f] s D F I) as P. cbv zeta in P. set (t := del_desc delete_cell_core (cells_at_faces s [f]) s) in *.
+  destruct P as (It & Dt & Ft & t1 & t2 & t3 & t4 & t5 & _ & FFt).
+  assert (Hft : f < nf t) by (unfold nf; rewrite t3; exact Hf).
+  pose proof (face_step f t Dt Ft It Hft (FFt f (or_introl eq_refl))) as St. cbv zeta in St.
+  destruct St as (Iv & Dv & Fv & v1 & v2 & v3 & v4 & _).
+  split; [exact Iv|]. repeat split; try congruence. all: rewrite v4, t4; reflexivity.
+Qed.
+
+Theorem delete_edge_immediate e s : deferred s = false -> fast s = false -> shift_inv2 s -> e < ne s ->
+  let fs := faces_at_edges s [e] in let cs := cells_at_faces s fs in
+  let s' := delete_edge e s in
+  shift_inv2 s' /\ deferred s' = false /\ fast s' = false /\
+  nv s' = nv s /\ edges s' = remove_nth e (edges s) /\
+  faces s' = map (map (cor2 (2 * e + 1))) (keep_slots [] fs (faces s)) /\
+  cells s' = map (map (shift_many fs)) (keep_slots [] cs (cells s)).
+Proof.
+  intros D F I He. cbv zeta. unfold delete_edge. pose proof I as ((NF & _ & EO & FO & _) & _).
+  rewrite (incident_faces_cache_is_scan s [e] EO) by (intros x [<-|[]]; exact He).
+  set (fs := faces_at_edges s [e]).
+  rewrite (incident_cells_cache_is_scan s fs FO) by (intros x Hx; exact (In_faces_at_edges_lt s [e] x Hx)).
+  pose proof (cells_phase fs s D F I) as P. cbv zeta in P. set (t := del_desc delete_cell_core (cells_at_faces s fs) s) in *.
+  destruct P as (It & Dt & Ft & t1 & t2 & t3 & t4 & t5 & _ & FFt).
+  assert (Sfs : strictly_sorted fs) by (apply strictly_sorted_filter, sorted_live_faces).
+  assert (Rfs : forall f, In f fs -> f < nf t) by (intros f Hf; unfold nf; rewrite t3; exact (In_faces_at_edges_lt s [e] f Hf)).
+  pose proof (faces_phase fs t Sfs Rfs Dt Ft It FFt) as Q. cbv zeta in Q. set (u := del_desc delete_face_core fs t) in *.
+  destruct Q as (Iu & Du & Fu & u1 & u2 & u3 & u4 & u5 & _ & _).
+  assert (K : faces u = keep_slots [] fs (faces s)).
+  { rewrite u3, t3. apply remove_slots_keep; [exact Sfs|]. intros f Hf. exact (In_faces_at_edges_lt s [e] f Hf). }
+  assert (FFe : edge_free u e).
+  { intros f he Hhe Ee. destruct (Nat.lt_ge_cases f (nf u)) as [Hf|Hf]; [|unfold face_at in Hhe; rewrite nth_overflow in Hhe by exact Hf; destruct Hhe].
+    assert (J : In (face_at u f) (keep_slots [] fs (faces s))) by (rewrite <- K; apply nth_In; exact Hf).
+    apply In_keep_slots in J. destruct J as [i (Hi & Hn & Ei)]. apply Hn. apply (faces_at_edges_spec s [e] i NF). split; [exact Hi|].
+    exists he. split; [unfold face_at at 1; rewrite Ei; exact Hhe|left; symmetry; exact Ee]. }
+  assert (Heu : e < ne u) by (unfold ne; rewrite u2, t2; exact He).
+  pose proof (edge_step e u Du Fu Iu Heu FFe) as St. cbv zeta in St.
+  destruct St as (Iv & Dv & Fv & v1 & v2 & v3 & v4 & _).
+  split; [exact Iv|]. repeat split; try congruence.
+  all: first [rewrite v3, K; reflexivity | rewrite v4, u4, t4; reflexivity].
+Qed.
+
+Theorem delete_vertex_immediate v s : deferred s = false -> fast s = false -> shift_inv2 s -> v < nv s ->
+  let es := edges_at_vertex s v in let fs := faces_at_edges s es in let cs := cells_at_faces s fs in
+  let s' := delete_vertex v s in
+  shift_inv2 s' /\ deferred s' = false /\ fast s' = false /\
+  nv s' = nv s - 1 /\ edges s' = map (cor1p v) (keep_slots (0, 0) es (edges s)) /\
+  faces s' = map (map (shift_many es)) (keep_slots [] fs (faces s)) /\
+  cells s' = map (map (shift_many fs)) (keep_slots [] cs (cells s)).
+Proof.
+  intros D F I Hv. cbv zeta. unfold delete_vertex. pose proof I as ((NF & VO & EO & FO & _) & _).
+  rewrite (incident_edges_cache_is_scan s v VO Hv). set (es := edges_at_vertex s v).
+  rewrite (incident_faces_cache_is_scan s es EO) by (intros x Hx; exact (In_edges_at_vertex_lt s v x Hx)).
+  set (fs := faces_at_edges s es).
+  rewrite (incident_cells_cache_is_scan s fs FO) by (intros x Hx; exact (In_faces_at_edges_lt s es x Hx)).
+  pose proof (cells_phase fs s D F I) as P. cbv zeta in P. set (t := del_desc delete_cell_core (cells_at_faces s fs) s) in *.
+  destruct P as (It & Dt & Ft & t1 & t2 & t3 & t4 & t5 & _ & FFt).
+  assert (Sfs : strictly_sorted fs) by (apply strictly_sorted_filter, sorted_live_faces).
+  assert (Rfs : forall f, In f fs -> f < nf t) by (intros f Hf; unfold nf; rewrite t3; exact (In_faces_at_edges_lt s es f Hf)).
+  pose proof (faces_phase fs t Sfs Rfs Dt Ft It FFt) as Q. cbv zeta in Q. set (u := del_desc delete_face_core fs t) in *.
+  destruct Q as (Iu & Du & Fu & u1 & u2 & u3 & u4 & u5 & _ & _).
+  assert (K : faces u = keep_slots [] fs (faces s)).
+  { rewrite u3, t3. apply remove_slots_keep; [exact Sfs|]. intros f Hf. exact (In_faces_at_edges_lt s es f Hf). }
+  assert (Ses : strictly_sorted es) by (apply strictly_sorted_filter, sorted_live_edges).
+  assert (Res : forall e, In e es -> e < ne u) by (intros e He; unfold ne; rewrite u2, t2; exact (In_edges_at_vertex_lt s v e He)).
+  assert (FFe : forall e, In e es -> edge_free u e).
+  { intros e He f he Hhe Ee. destruct (Nat.lt_ge_cases f (nf u)) as [Hf|Hf]; [|unfold face_at in Hhe; rewrite nth_overflow in Hhe by exact Hf; destruct Hhe].
+    assert (J : In (face_at u f) (keep_slots [] fs (faces s))) by (rewrite <- K; apply nth_In; exact Hf).
+    apply In_keep_slots in J. destruct J as [i (Hi & Hn & Ei)]. apply Hn. apply (faces_at_edges_spec s es i NF). split; [exact Hi|].
+    exists he. split; [unfold face_at at 1; rewrite Ei; exact Hhe|rewrite Ee; exact He]. }
+  pose proof (edges_phase es u Ses Res Du Fu Iu FFe) as W. cbv zeta in W. set (w := del_desc delete_edge_core es u) in *.
+  destruct W as (Iw & Dw & Fw & x1 & x2 & x3 & x4 & x5 & _ & _).
+  assert (Ke : edges w = keep_slots (0, 0) es (edges s)).
+  { rewrite x2, u2, t2. apply remove_slots_keep; [exact Ses|]. intros e He. exact (In_edges_at_vertex_lt s v e He). }
+  assert (VF : vertex_free w v).
+  { intros e He. assert (J : In (edge_at w e) (keep_slots (0, 0) es (edges s))) by (rewrite <- Ke; apply nth_In; exact He).
+    apply In_keep_slots in J. destruct J as [i (Hi & Hn & Ei)]. rewrite <- Ei. fold (edge_at s i).
+    split; intros E; apply Hn; apply (edges_at_vertex_spec s v i NF); (split; [exact Hi|]); [left|right]; exact E. }
+  assert (Hvw : v < nv w) by congruence.
+  pose proof (vertex_step v w Dw Fw Iw Hvw VF) as St. cbv zeta in St.
+  destruct St as (Iv & Dv & Fv & v1 & v2 & v3 & v4 & _).
+  split; [exact Iv|]. repeat split; try congruence.
+  all: first [rewrite v2, Ke; reflexivity | rewrite v3, x3, K; reflexivity | rewrite v4, x4, u4, t4; reflexivity].
+Qed.
+
+(* the result depends on the definitions only: any two states with the same definitions (whatever incidences they keep) lead
+   to the same definitions *)
+Lemma closure_same_defs s t v : no_flags s -> no_flags t -> edges t = edges s -> faces t = faces s -> cells t = cells s ->
+  edges_at_vertex t v = edges_at_vertex s v /\
+  (forall es, faces_at_edges t es = faces_at_edges s es) /\ (forall fs, cells_at_faces t fs = cells_at_faces s fs).
+Proof.
+  intros NS NT e1 e2 e3. unfold edges_at_vertex, faces_at_edges, cells_at_faces.
+  rewrite (live_edges_all s NS), (live_edges_all t NT), (live_faces_all s NS), (live_faces_all t NT), (live_cells_all s NS), (live_cells_all t NT).
+  unfold edge_at, face_at, cell_at, ne, nf, nc. rewrite e1, e2, e3. repeat split.
+Qed.
+
+Theorem delete_vertex_immediate_incidence_independent v s t : deferred s = false -> fast s = false -> shift_inv2 s ->
+  deferred t = false -> fast t = false -> shift_inv2 t -> v < nv s ->
+  nv t = nv s -> edges t = edges s -> faces t = faces s -> cells t = cells s ->
+  let s' := delete_vertex v s in let t' := delete_vertex v t in
+  nv t' = nv s' /\ edges t' = edges s' /\ faces t' = faces s' /\ cells t' = cells s'.
+Proof.
+  intros D F I D' F' I' Hv e0 e1 e2 e3. cbv zeta.
+  pose proof (delete_vertex_immediate v s D F I Hv) as P. pose proof (delete_vertex_immediate v t D' F' I' ltac:(rewrite e0; exact Hv)) as Q.
+  cbv zeta in P, Q. destruct P as (_ & _ & _ & p1 & p2 & p3 & p4). destruct Q as (_ & _ & _ & q1 & q2 & q3 & q4).
+  destruct (closure_same_defs s t v (proj1 (proj1 I)) (proj1 (proj1 I')) e1 e2 e3) as (c1 & c2 & c3).
+  rewrite p1, p2, p3, p4, q1, q2, q3, q4, c1, !c2, !c3, e0, e1, e2, e3. repeat split.
+Qed.
+
+(* ---- executable forms, continued *)
+Definition edge_free_b (s : mesh) (h : nat) : bool := forallb (fun l => forallb (fun he => negb (he / 2 =? h)) l) (faces s).
+Lemma edge_free_b_sound s h : edge_free_b s h = true -> edge_free s h.
+Proof.
+  unfold edge_free_b. rewrite forallb_forall. intros H c hf Hhf.
+  destruct (Nat.lt_ge_cases c (nf s)) as [Hc|Hc]; [|unfold face_at in Hhf; rewrite nth_overflow in Hhf by exact Hc; destruct Hhf].
+  specialize (H _ (nth_In (faces s) [] Hc)). rewrite forallb_forall in H. specialize (H hf Hhf). apply negb_true_iff, Nat.eqb_neq in H. exact H.
+Qed.
+Definition vertex_free_b (s : mesh) (h : nat) : bool := forallb (fun p => negb (fst p =? h) && negb (snd p =? h)) (edges s).
+Lemma vertex_free_b_sound s h : vertex_free_b s h = true -> vertex_free s h.
+Proof.
+  unfold vertex_free_b. rewrite forallb_forall. intros H e He. specialize (H _ (nth_In (edges s) (0, 0) He)). fold (edge_at s e) in H.
+  apply andb_true_iff in H. destruct H as [A B]. apply negb_true_iff, Nat.eqb_neq in A. apply negb_true_iff, Nat.eqb_neq in B. auto.
+Qed.
+
+Definition closed_all_b (s : mesh) : bool := forallb (fun c => c_deleted s c || closed_cell_b s c) (seq 0 (nc s)).
+Definition shift_inv2_b (s : mesh) : bool :=
+  shift_inv_b s && (negb (ebu s && fbu s) || (slots_nodup_b s && closed_all_b s && faces_simple_b s)).
+Lemma shift_inv2_b_sound s : shift_inv2_b s = true -> shift_inv2 s.
+Proof.
+  unfold shift_inv2_b. rewrite andb_true_iff. intros [A B]. split; [apply shift_inv_b_sound; exact A|].
+  intros E Fb. rewrite E, Fb in B. cbn [andb negb orb] in B. rewrite !andb_true_iff in B. destruct B as [[B1 B2] B3].
+  split; [apply slots_nodup_b_sound; exact B1|]. split; [apply live_cells_closed_b; exact B2|apply faces_simple_b_sound; exact B3].
 Qed.
